@@ -579,6 +579,18 @@ func (r *collection) addService(service any, lifetime Lifetime, opts ...AddOptio
 		// Register each field as a separate service that points to the same constructor
 		siblings := make([]*Descriptor, 0, len(descriptor.resultFields))
 		for _, field := range descriptor.resultFields {
+			// A service is either keyed or grouped, as for godi.Name and godi.Group
+			if field.Key != nil && field.Group != "" {
+				return &RegistrationError{
+					ServiceType: field.Type,
+					Operation:   "register result object field",
+					Cause: &ValidationError{
+						ServiceType: field.Type,
+						Cause:       fmt.Errorf("result field %s cannot have both a name and a group tag", field.Name),
+					},
+				}
+			}
+
 			// Create a descriptor for each field type
 			fieldDescriptor := &Descriptor{
 				Type:            field.Type,
